@@ -127,6 +127,33 @@ impl Monitor for Mon {
             );
         }
         out.count("residue_checks");
+        // a sub-message that reports success has had its whole effect: an insurance-fund withdrawal the engine asked for in a
+        // successful transaction moved exactly the requested amount (a fund that silently pays less masks a failed withdrawal)
+        if s.res.ok && s.act.is_engine_tx() {
+            let mut requested: u128 = 0;
+            let mut n = 0;
+            for m in s.res.msgs.iter().filter(|m| m.target == "fund" && m.sender == w.engine.as_str()) {
+                if let Ok(j) = serde_json::from_str::<serde_json::Value>(&m.what) {
+                    if let Some(a) = j.get("withdraw").and_then(|x| x.get("amount")).and_then(|a| a.as_str()).and_then(|a| a.parse::<u128>().ok()) {
+                        requested = requested.saturating_add(a);
+                        n += 1;
+                    }
+                }
+            }
+            if n > 0 {
+                out.count("fund_withdrawals_in_successful_txs");
+                let got = crate::oracle::flow(&s.res.xfers, Some(w.fund.as_str()), w.engine.as_str());
+                if got != requested {
+                    return Some(
+                        Violation::new(
+                            "fund_withdrawal_not_honoured",
+                            format!("{} succeeded: the engine asked the insurance fund for {} in {} Withdraw message(s) but the fund paid the engine {}", s.act.name(), requested, n, got),
+                        )
+                        .with("act", s.act.name()),
+                    );
+                }
+            }
+        }
         if !s.res.ok && s.act.is_engine_tx() {
             self.natural_failures += 1;
             out.count("natural_failures");
@@ -175,7 +202,7 @@ pub fn prop() -> HistProp {
         max_ops: (25, 60),
         cases: (20_000, 300_000),
         make: || Box::new(Mon::default()),
-        rule: "for every Open/Close/Deposit/Withdraw/Liquidate/PayFunding transaction of a generated history (cw20 and native, fees, shortfall paths): the transaction is first run on a what-if copy to learn its message tree (every message dispatched by a contract of the deployment to the vAMM, the collateral token, the insurance fund or the bank, depth first); then, from the restored pre-state, it is re-run once per tree node with that node failing instead of executing (exhaustive within the transaction): the call must return Err and the full raw key/value dump of the chain store (all contracts + bank) must equal the pre-state dump. Natural failures (allowance, balance, closed/over-limit vAMM, slippage limit, bad debt) must leave the raw dump and every observable unchanged. After every transaction the engine's raw keys tmp-swap, sent-funds, tmp-liquidator must be absent. evaluations = faulted executions. Non-trivial: a history containing a transaction with a message tree of >= 3 nodes. Distinct by digest of (cfg, ops).",
+        rule: "for every Open/Close/Deposit/Withdraw/Liquidate/PayFunding transaction of a generated history (cw20 and native, fees, shortfall paths): the transaction is first run on a what-if copy to learn its message tree (every message dispatched by a contract of the deployment to the vAMM, the collateral token, the insurance fund or the bank, depth first); then, from the restored pre-state, it is re-run once per tree node with that node failing instead of executing (exhaustive within the transaction): the call must return Err and the full raw key/value dump of the chain store (all contracts + bank) must equal the pre-state dump. Natural failures (allowance, balance, closed/over-limit vAMM, slippage limit, bad debt) must leave the raw dump and every observable unchanged. After every transaction the engine's raw keys tmp-swap, sent-funds, tmp-liquidator must be absent. In a successful transaction the Withdraw messages the engine sent to the insurance fund add up to exactly what the fund paid the engine (a fund that pays less than asked masks a failed withdrawal). evaluations = faulted executions. Non-trivial: a history containing a transaction with a message tree of >= 3 nodes. Distinct by digest of (cfg, ops).",
         assumptions: &["crash points are sub-message boundaries (where CosmWasm can fail a transaction); a contract panic is a failed transaction", "pre-states and operations are sampled; fault positions within each sampled transaction are enumerated completely"],
         eval_counter: Some("faulted_executions"),
     }
